@@ -36,6 +36,7 @@ class Interpreter(Interp):
     def __init__(self, eng, builtins=None):
         super().__init__(eng, builtins)
         self.frames = []
+        self.all_orders_for_constant_sets = False
 
     def do_super(self):
         if not self.frames:
@@ -472,6 +473,26 @@ class Interpreter(Interp):
             return fn(self, *args, **kwargs)
         raise exc("TypeError", f"{fn!r} is not callable")
 
+    def dict_find(self, d, key):
+        """The actual key object of concrete dict d that equals key (forking on symbolic equalities), or _NOKEY."""
+        sym = isinstance(key, (SV, DName, PartV))
+        if not sym:
+            try:
+                if key in d:
+                    return key
+            except TypeError:
+                raise OutOfReach(f"unhashable key {key!r}")
+            if not any(isinstance(k, SymKey) for k in d):
+                return _NOKEY
+        for k in list(d.keys()):
+            kk = k.key if isinstance(k, SymKey) else k
+            if not sym and not isinstance(k, SymKey):
+                continue
+            r = self.eq(kk, key)
+            if r is True or (r is not False and self.eng.branch(r, "dkey")):
+                return k
+        return _NOKEY
+
     def await_if_coro(self, v):
         from .interp import Coro as _C
         return self.await_(v) if isinstance(v, _C) else v
@@ -480,7 +501,14 @@ class Interpreter(Interp):
         if "BaseException" in cls.mro_names():
             e = ExcVal(cls, args)
             return e
-        obj = Rec(cls=cls, name=cls.name)
+        new = cls.lookup("__new__")
+        if new is not None:
+            f = new[0]
+            obj = f(self, cls, *args, **kwargs) if callable(f) and not isinstance(f, FuncVal) else self.call(f, [cls] + list(args), kwargs)
+            if not (isinstance(obj, Rec) and obj._cls is cls):
+                return obj
+        else:
+            obj = Rec(cls=cls, name=cls.name)
         init = cls.lookup("__init__")
         if init is not None:
             if getattr(init[0], "_is_method", False):
@@ -568,6 +596,13 @@ class Interpreter(Interp):
         if isinstance(obj, Rec):
             if attr in obj._fields:
                 return obj._fields[attr]
+            sd = obj._fields.get("__symdict__")
+            if sd is not None:
+                if attr == "__dict__":
+                    return sd
+                key = PartV(part_const(attr))
+                if self.eng.branch(sd.has(key), f"attr:{attr}"):
+                    return sd.getitem(key)
             if obj._cls is not None and isinstance(obj._cls, ClassRec):
                 r = obj._cls.lookup(attr)
                 if r is not None:
@@ -676,6 +711,13 @@ class Interpreter(Interp):
             hook = obj._fields.get("__setattr_hook__")
             if hook is not None:
                 hook(self, obj, attr, value)
+            if attr == "__dict__" and isinstance(value, MapView):
+                obj._fields["__symdict__"] = value  # instance dictionary is a symbolic map from now on
+                return
+            sd = obj._fields.get("__symdict__")
+            if sd is not None and not attr.startswith("_"):
+                sd.setitem(PartV(part_const(attr)), value)
+                return
             obj._fields[attr] = value
             return
         if isinstance(obj, ClassRec):
@@ -724,19 +766,10 @@ class Interpreter(Interp):
             except TypeError as e:
                 raise exc("TypeError", str(e))
         if isinstance(obj, dict):
-            if isinstance(idx, (SV, DName, PartV)):
-                # symbolic key against concrete keys
-                for k, v in obj.items():
-                    r = self.eq(k, idx)
-                    if r is True or (r is not False and self.eng.branch(r, "dkey")):
-                        return v
+            k = self.dict_find(obj, idx)
+            if k is _NOKEY:
                 raise exc("KeyError", idx)
-            try:
-                return obj[idx]
-            except KeyError:
-                raise exc("KeyError", idx)
-            except TypeError:
-                raise OutOfReach(f"unhashable key {idx!r}")
+            return obj[k]
         if isinstance(obj, PartsList):
             return obj.get(self, idx)
         if isinstance(obj, str) and isinstance(idx, int):
@@ -766,15 +799,10 @@ class Interpreter(Interp):
             obj.setitem(idx, value)
             return
         if isinstance(obj, dict):
-            if isinstance(idx, (SV, DName, PartV)):
-                for k in list(obj.keys()):
-                    r = self.eq(k, idx)
-                    if r is True or (r is not False and self.eng.branch(r, "dkey")):
-                        obj[k] = value
-                        return
-                obj[SymKey(idx)] = value
-                return
-            obj[idx] = value
+            k = self.dict_find(obj, idx)
+            if k is _NOKEY:
+                k = SymKey(idx) if isinstance(idx, (SV, DName, PartV)) else idx
+            obj[k] = value
             return
         if isinstance(obj, list):
             try:
@@ -796,16 +824,10 @@ class Interpreter(Interp):
             obj.delitem(idx)
             return
         if isinstance(obj, dict):
-            if isinstance(idx, (SV, DName, PartV)):
-                for k in list(obj.keys()):
-                    r = self.eq(k, idx)
-                    if r is True or (r is not False and self.eng.branch(r, "dkey")):
-                        del obj[k]
-                        return
+            k = self.dict_find(obj, idx)
+            if k is _NOKEY:
                 raise exc("KeyError", idx)
-            if idx not in obj:
-                raise exc("KeyError", idx)
-            del obj[idx]
+            del obj[k]
             return
         if isinstance(obj, list):
             try:
@@ -825,6 +847,9 @@ class Interpreter(Interp):
             items = self.pyset_distinct(v)
             if len(items) <= 1:
                 return list(items)
+            if all(isinstance(x, (str, int, float, bool, type(None), PyTypeTok)) for x in items) and not self.all_orders_for_constant_sets:
+                # A-SETCONST: a set of literal constants is iterated in one canonical order
+                return sorted(items, key=repr)
             perms = list(itertools.permutations(range(len(items))))
             k = self.eng.choose(len(perms), "order") % len(perms)
             return [items[i] for i in perms[k]]
@@ -886,6 +911,9 @@ def _native_method(obj, attr):
         except (TypeError, ValueError, IndexError, KeyError) as e:
             raise exc(type(e).__name__, str(e))
     return call
+
+
+_NOKEY = object()
 
 
 class SymKey:
@@ -971,6 +999,30 @@ def _map_setdefault(interp, mv, k, d):
     return mv.getitem(k)
 
 
+_copy_ctr = [0]
+
+
+def _map_copy(interp, mv):
+    """dict.copy() of a symbolic map: a fresh root store initialised with the current columns."""
+    _copy_ctr[0] += 1
+    init = {c: mv.col(c) for c in mv.typ.columns()}
+    st = Store(interp.eng, f"copy{_copy_ctr[0]}", mv.typ, init=init)
+    v = st.view()
+    v.fresh_copy = True
+    return v
+
+
+def _map_update(interp, mv, other, kw):
+    if other is not None:
+        if isinstance(other, dict):
+            for k, v in other.items():
+                mv.setitem(k.key if isinstance(k, SymKey) else k, v)
+        else:
+            raise OutOfReach("dict.update of a symbolic map with a symbolic map")
+    for k, v in kw.items():
+        mv.setitem(k, v)
+
+
 def _set_remove(interp, sv, x):
     if not interp.eng.branch(sv.contains(x), "remove"):
         raise exc("KeyError", x)
@@ -981,6 +1033,8 @@ _VIEW_METHODS = {
     ("MapView", "get"): _map_get,
     ("MapView", "pop"): _map_pop,
     ("MapView", "setdefault"): lambda i, mv, k, d=None: _map_setdefault(i, mv, k, d),
+    ("MapView", "copy"): lambda i, mv: _map_copy(i, mv),
+    ("MapView", "update"): lambda i, mv, other=None, **kw: _map_update(i, mv, other, kw),
     ("MapView", "items"): lambda i, mv: SymItems(mv, "items"),
     ("MapView", "keys"): lambda i, mv: SymItems(mv, "keys"),
     ("MapView", "clear"): lambda i, mv: mv.clear(),
@@ -1032,26 +1086,14 @@ _STR_METHODS = {"startswith": _str_startswith}
 
 
 def _dict_get(interp, d, k, default=None):
-    if isinstance(k, (SV, DName, PartV)):
-        for kk, v in d.items():
-            r = interp.eq(kk.key if isinstance(kk, SymKey) else kk, k)
-            if r is True or (r is not False and interp.eng.branch(r, "dkey")):
-                return v
-        return default
-    return d.get(k, default)
+    kk = interp.dict_find(d, k)
+    return default if kk is _NOKEY else d[kk]
 
 
 def _dict_pop(interp, d, k, *default):
-    if isinstance(k, (SV, DName, PartV)):
-        for kk in list(d.keys()):
-            r = interp.eq(kk.key if isinstance(kk, SymKey) else kk, k)
-            if r is True or (r is not False and interp.eng.branch(r, "dkey")):
-                return d.pop(kk)
-        if default:
-            return default[0]
-        raise exc("KeyError", k)
-    if k in d:
-        return d.pop(k)
+    kk = interp.dict_find(d, k)
+    if kk is not _NOKEY:
+        return d.pop(kk)
     if default:
         return default[0]
     raise exc("KeyError", k)
@@ -1166,12 +1208,26 @@ def _b_type(interp, v):
 def _b_str(interp, v=""):
     if isinstance(v, (str, DName, PartV)):
         return v
+    if isinstance(v, Rec) and "__str__" in v._fields:
+        return interp.call(v._fields["__str__"], [], {})
     if isinstance(v, SV) and v.t.sort() == z3.StringSort():
         return v
     return SV(interp.str_of(v))
 
 
 def _b_getattr(interp, obj, name, *default):
+    if isinstance(name, PartV) and isinstance(obj, Rec) and obj._fields.get("__symdict__") is not None:
+        sd = obj._fields["__symdict__"]
+        if interp.eng.branch(sd.has(name), "symattr"):
+            return sd.getitem(name)
+        hook = obj._fields.get("__class_attr__")
+        if hook is not None:
+            r = hook(interp, name)
+            if r is not None:
+                return r
+        if default:
+            return default[0]
+        raise exc("AttributeError", name)
     if not isinstance(name, str):
         raise OutOfReach("getattr with symbolic name")
     try:
